@@ -34,8 +34,8 @@ type listCase struct {
 	Arity int          `json:"arity"`
 	Mask  uint32       `json:"mask"` // bit i set: position i holds a null-like item
 	// GroupForm: the construct is built through its ...Func variant and the items through the *Group methods
-	// (g.Null(), g.Id(..)); NullHead: real items are spelled Null().Id(x) — a statement that starts with Null()
-	// and is continued is an ordinary item
+	// (g.Null(), g.Id(..)); NullHead: real items are spelled with null tokens around them (Null().Id(x), Null().Id(x).Null(),
+	// Add(nil, Id(x), nil), ...) — a statement that holds one real token is an ordinary item
 	GroupForm bool `json:"groupform,omitempty"`
 	NullHead  bool `json:"nullhead,omitempty"`
 	// AfterFailures: the statement object first goes through renders that fail (see renderListX)
@@ -155,9 +155,21 @@ func checkList(c listCase) error {
 		}
 		id := fmt.Sprintf("a%02d", i)
 		ids = append(ids, id)
-		if c.NullHead && i%2 == 1 {
+		switch {
+		case c.NullHead && i%8 == 1:
 			with = append(with, recipe.S().C("Null").C("Id", id))
-		} else {
+		case c.NullHead && i%8 == 2:
+			// the one real token exactly in the middle of null ones
+			with = append(with, recipe.S().C("Null").C("Id", id).C("Null"))
+		case c.NullHead && i%8 == 3:
+			with = append(with, recipe.S().Add(recipe.Nil(), recipe.Id(id), recipe.Nil()))
+		case c.NullHead && i%8 == 5:
+			with = append(with, recipe.S().C("Null").Add(recipe.Nil()).C("Id", id).C("Null").C("List"))
+		case c.NullHead && i%8 == 6:
+			with = append(with, recipe.S().C("Id", id).C("Null").C("Null"))
+		case c.NullHead && i%8 == 7:
+			with = append(with, recipe.S().C("Null").C("Null").C("Null").C("Id", id).C("Null").C("Null").C("Null"))
+		default:
 			with = append(with, recipe.Id(id))
 		}
 		without = append(without, recipe.Id(id))
